@@ -2,7 +2,8 @@ package path
 
 // Bounded stand-in for the generated PEG engine (property C16): the real ParsePath is compared with an independent
 // recursive-descent recogniser of the documented grammar (third_party/propertyparser.peg, with an end-of-input check
-// and the modifier class read as intended: ^ or *) on EVERY token string up to a length bound.
+// and the modifier class read as intended: ^ or *) on EVERY token string up to a length bound, plus a size ladder
+// (sampled): sequences and alternatives of 1..512 steps, nesting 1..256 deep, names of 8..4096 characters.
 //   Expression = Term (_ "/" _ Term)* ; Term = Factor (_ "|" _ Factor)* ; Factor = "(" _ Expression _ ")" | Iri | "@type"
 //   Iri = [a-zA-Z0-9_-]+ "." [.\\/a-zA-Z0-9_-]+ _ ("^" | "*")?        _ = [ \n\t\r]*
 // Environment: C16_BOUND (token count, default 4), C16_OUT (file for the JSON summary).
@@ -288,6 +289,23 @@ func TestBoundedC16(t *testing.T) {
 		}
 	}
 	rec("", 0)
+	// size ladder (beyond the token bound, sampled not exhaustive): long sequences and alternatives, deep nesting, long names
+	for n := 1; n <= 512; n *= 2 {
+		var steps []string
+		for k := 0; k < n; k++ {
+			steps = append(steps, fmt.Sprintf("vocabulary%d.property-name_%d", k%7, k))
+		}
+		check(strings.Join(steps, " / "))
+		check(strings.Join(steps, " | "))
+		check(strings.Join(steps, "/") + " /")
+		if n <= 256 {
+			check(strings.Repeat("(", n) + "a.b" + strings.Repeat(")", n))
+			check(strings.Repeat("( ", n) + "a.b / c.d^" + strings.Repeat(" )", n) + " | c.d")
+			check(strings.Repeat("(", n) + "a.b" + strings.Repeat(")", n-1))
+		}
+		check("ns." + strings.Repeat("x", n*8))
+		check(strings.Repeat("n", n*8) + ".p" + strings.Repeat(" ", n) + "^")
+	}
 	b, _ := json.Marshal(sum)
 	if out := os.Getenv("C16_OUT"); out != "" {
 		os.WriteFile(out, b, 0644)
